@@ -22,3 +22,8 @@ pub fn __clear_thread_namespace_for_tests() {
 pub fn __current_thread_namespace_for_tests() -> Option<String> {
     paths::thread_namespace()
 }
+
+// Verification hooks (observation only). Compiled only with `--cfg walrus_verif`.
+#[cfg(walrus_verif)]
+#[doc(hidden)]
+pub mod verif;
